@@ -101,11 +101,20 @@ def bindDecision (s : Sig) (nargs : Nat) (kwargs : List (Text × Bool)) : Decisi
     | some c => .status c
     | none => .status 500
 
-/-- The whole request with a handler of signature `s` reached with `nargs` path atoms. -/
-def respond (r : ReqX) (s : Sig) (nargs : Nat) : Outcome :=
+/-- `LateParamPageHandler.kwargs`: the keyword arguments are computed when the handler is CALLED —
+    `request.params.copy()` as it is then (so a `before_handler` tool that sets `request.params[k] = v`
+    is seen), updated with the handler's own `kwargs` (set by a dispatcher or tool; they override).
+    `late` lists both kinds of assignment in the order they take effect. -/
+def lateKwargs (params : Params) (late : List (Text × Text)) : Params :=
+  late.foldl (fun d kv => assign d kv.1 (.one (.str kv.2))) params
+
+/-- The whole request with a handler of signature `s` reached with `nargs` path atoms; `late` = what tools
+    assign to `request.params` / `handler.kwargs` between dispatch and the call. -/
+def respond (r : ReqX) (s : Sig) (nargs : Nat) (late : List (Text × Text) := []) : Outcome :=
   match handleX r with
   | .status c => .status c
-  | .handler kw =>
+  | .handler kw0 =>
+    let kw := lateKwargs kw0 late
     let bodyKeys : List Text :=
       match processBody r with
       | .params bp => bp.map (·.1)
